@@ -25,6 +25,7 @@ type c17Desc struct {
 	GateData int      `json:"gate_chk"` // ... and the peer has written GateData chunks
 	Cap      int      `json:"cap"`      // capacity of the pipe towards the peer (0 = unbounded)
 	Stall    bool     `json:"stall"`    // the peer never reads: writes beyond the capacity block until cancelled
+	Partial  bool     `json:"partial,omitempty"` // writes deliver as many bytes as there is room for and block for the rest (a kernel socket buffer), so a cancelled write may have put part of its bytes on the wire
 	ReplyTo  []int    `json:"reply_to,omitempty"` // client scenarios (ops S, V, C): the peer answers the request of these ops (and only these) when it sees it
 }
 
@@ -63,6 +64,7 @@ func c17Body(d c17Desc) func() {
 		}
 		peer, mine := vnet.Pipe("u")
 		mine.Cap = d.Cap
+		mine.Partial = d.Partial
 		st.peer = peer
 		var c1 *vnet.Ctx
 		if d.Kind == "deadline" {
@@ -298,6 +300,37 @@ func c17Check(d c17Desc) func(x *vsched.Exec) (string, string) {
 		}
 		// live writes arrive completely and in order (a cancelled write may or may not have arrived)
 		arrived := string(st.peer.Received())
+		if d.Partial {
+			// every successful write arrives whole and in order; a failed (cancelled) write contributes a prefix of
+			// its bytes, possibly empty, once, at its place
+			var units []string
+			var okW []bool
+			for i, r := range st.ops {
+				if r.op == "W" {
+					units = append(units, fmt.Sprintf("w%d.", i))
+					okW = append(okW, r.err == "")
+				}
+			}
+			var match func(k, pos int) bool
+			match = func(k, pos int) bool {
+				if k == len(units) {
+					return pos == len(arrived)
+				}
+				if okW[k] {
+					return strings.HasPrefix(arrived[pos:], units[k]) && match(k+1, pos+len(units[k]))
+				}
+				for n := 0; n <= len(units[k]); n++ {
+					if strings.HasPrefix(arrived[pos:], units[k][:n]) && match(k+1, pos+n) {
+						return true
+					}
+				}
+				return false
+			}
+			if !match(0, 0) {
+				return fmt.Sprintf("bytes that reached the peer %q are not the writes %v (successful: %v) in order, each failed one contributing at most a prefix of its bytes once", arrived, units, okW), "symptom=written-bytes-corrupted"
+			}
+			return "", ""
+		}
 		if !subsequenceOfWrites(peerWant, arrived) {
 			return fmt.Sprintf("bytes that reached the peer %q, successful writes were %q", arrived, peerWant), "symptom=written-bytes-lost"
 		}
@@ -397,6 +430,15 @@ func scenariosC17(tier string) []Scen {
 					b = 4
 				}
 				add(c17Desc{Ops: ops, NCancel: n, Kind: kind, Chunks: []string{"x"}, GateOp: gop, GateData: 0, Cap: 4, Stall: true}, b)
+				// the same with partial writes: the second write gets one byte through before it blocks
+				if gop > 2 {
+					continue // with partial writes the second write already blocks: a third never starts before the cancellation
+				}
+				add(c17Desc{Ops: ops, NCancel: n, Kind: kind, Chunks: []string{"x"}, GateOp: gop, GateData: 0, Cap: 4, Stall: true, Partial: true}, b)
+				if n == 2 {
+					// ... and a live write behind the cancelled ones, to a peer that reads again
+					add(c17Desc{Ops: []string{"W", "W", "W"}, NCancel: 2, Kind: kind, Chunks: []string{"x"}, GateOp: gop, GateData: 0, Cap: 4, Partial: true}, b)
+				}
 			}
 		}
 	}
